@@ -1,0 +1,44 @@
+//go:build verif
+
+// Contracts for govc (contract-based deductive verification); comments only.
+package v2alpha2
+
+// Generated deep copies (zz_generated.deepcopy.go). They bottom out in library deep copies whose
+// bodies are not part of the loaded program (metav1.ObjectMeta.DeepCopyInto, metav1.Time,
+// resource.Quantity.DeepCopy), hence `trusted`: the result is a new object whose scalar fields equal
+// the receiver's and whose maps / pointer fields are new objects with equal contents.
+
+//@ define sameStrMap(a map[string]string, b map[string]string) bool = ((a == nil) == (b == nil)) && dom(a) == dom(b) && (forall k string :: a[k] == b[k])
+//@ define sameResList(a v1.ResourceList, b v1.ResourceList) bool = ((a == nil) == (b == nil)) && dom(a) == dom(b) && (forall k v1.ResourceName :: a[k] == b[k])
+
+//@ func (*PodGroup).DeepCopy
+//@   props C18
+//@   trusted
+//@   note generated deepcopy; calls metav1.ObjectMeta.DeepCopyInto (library, body not loaded)
+//@   requires in != nil
+//@   fresh
+//@   ensures result != nil
+//@   ensures result.Name == in.Name && result.Namespace == in.Namespace
+//@   ensures sameStrMap(result.Labels, in.Labels) && (result.Labels != nil ==> fresh(result.Labels))
+//@   ensures sameStrMap(result.Annotations, in.Annotations) && (result.Annotations != nil ==> fresh(result.Annotations))
+//@   ensures result.Labels == nil || result.Labels != result.Annotations
+//@   ensures result.Spec.MinMember == in.Spec.MinMember && result.Spec.Queue == in.Spec.Queue && result.Spec.PriorityClassName == in.Spec.PriorityClassName && result.Spec.Preemptibility == in.Spec.Preemptibility
+//@   ensures result.Spec.Parallelism == in.Spec.Parallelism && result.Spec.Completions == in.Spec.Completions && result.Spec.BackoffLimit == in.Spec.BackoffLimit
+//@   ensures result.Spec.TopologyConstraint.Topology == in.Spec.TopologyConstraint.Topology && result.Spec.TopologyConstraint.RequiredTopologyLevel == in.Spec.TopologyConstraint.RequiredTopologyLevel && result.Spec.TopologyConstraint.PreferredTopologyLevel == in.Spec.TopologyConstraint.PreferredTopologyLevel
+//@   ensures len(result.Spec.SubGroups) == len(in.Spec.SubGroups) && len(result.OwnerReferences) == len(in.OwnerReferences)
+//@ end
+
+//@ func (*PodGroupStatus).DeepCopy
+//@   props C20
+//@   trusted
+//@   note generated deepcopy; the nested copies end in resource.Quantity.DeepCopy / metav1.Time.DeepCopyInto (library, bodies not loaded)
+//@   requires in != nil
+//@   fresh
+//@   ensures result != nil
+//@   ensures result.Phase == in.Phase && result.Running == in.Running && result.Succeeded == in.Succeeded && result.Failed == in.Failed && result.Pending == in.Pending
+//@   ensures len(result.Conditions) == len(in.Conditions) && len(result.SchedulingConditions) == len(in.SchedulingConditions)
+//@   ensures sameResList(result.ResourcesStatus.Allocated, in.ResourcesStatus.Allocated)
+//@   ensures sameResList(result.ResourcesStatus.AllocatedNonPreemptible, in.ResourcesStatus.AllocatedNonPreemptible)
+//@   ensures sameResList(result.ResourcesStatus.Requested, in.ResourcesStatus.Requested)
+//@   ensures result.ResourcesStatus.AllocatedNonPreemptible != nil ==> fresh(result.ResourcesStatus.AllocatedNonPreemptible)
+//@ end
